@@ -60,6 +60,10 @@ class RepeatingEventBase(EventBase):
                           representation, **kwargs) -> list[EventMessageBox]:
         if not self.inband:
             return []
+        if self.interval <= 0:
+            # a repeating event needs a positive interval, otherwise the
+            # loop below never reaches the end of the segment
+            return []
         # start and end time of the fragment (representation timebase)
         seg_start = moof.traf.tfdt.base_media_decode_time
         seg_end = seg_start + representation.segments[mod_segment].duration
